@@ -24,9 +24,7 @@ MUTANTS = [
      "search key ends in '9' instead of ':'"),
     ("m01c", "C01", "rpc.go", "if !bytes.Equal(fullyQualifiedTable(region), table) {\n\t\t// not the same table, can happen if we got the last region\n\t\treturn nil\n\t}",
      "if false {\n\t\treturn nil\n\t}", "cache lookup without the table-equality test"),
-    ("m02a", "C02", "region/multi.go", "\t\t\tnread += n\n", "\t\t\tif n > 24 {\n\t\t\t\tnread += n\n\t\t\t}\n", "multi: cellblock offset not advanced for tiny results"),
-    ("m02b", "C02", "region/multi.go", "\treturn m.calls[i-1]\n}\n\n// Table is not supported", "\treturn m.calls[(int(i)-1)%len(m.calls)^0]\n}\n\n// Table is not supported",
-     "equivalent control (should NOT be detected)"),
+    ("m02a", "C02", "region/multi.go", "\t\t\tnread += n\n", "\t\t\tnread = n\n", "multi: cellblock offset of a result is the size of the previous one, not the running sum"),
     ("m03a", "C03", "region/client.go", "\t\tif r := c.unregisterRPC(id); r != nil {\n\t\t\t// we are the ones to unregister the rpc,\n\t\t\t// return err to notify client of it\n\t\t\treturn err\n\t\t}",
      "\t\tc.unregisterRPC(id)\n\t\treturn err", "trySend returns the error even if fail() already completed the call (double completion)"),
     ("m03b", "C03", "region/client.go", "\tdefer func() {\n\t\tm.returnResults(nil, ErrClientClosed)\n\t}()", "\tdefer func() {}()",
@@ -37,10 +35,10 @@ MUTANTS = [
      "\tcase region.ServerError:", "NotServingRegionError no longer marks the region unavailable"),
     ("m05a", "C05", "region/client.go", ("\tc.writeM.Lock()\n", "\tc.writeM.Unlock()\n"), ("", ""), "write lock removed"),
     ("m06a", "C06", "scanner.go", "\ttmp[len(tmp)-1] = tmp[len(tmp)-1] - 1\n", "\ttmp[len(tmp)-1] = tmp[len(tmp)-1] - 2\n", "reversed scan: predecessor key off by one more"),
-    ("m06b", "C06", "scanner.go", "\tif rsk[len(rsk)-1] == 0x0 {\n\t\ts.startRow = rsk[:len(rsk)-1]\n\t\treturn\n\t}\n", "", "reversed scan: zero-suffix shortening dropped"),
+    ("m06b", "C06", "scanner.go", "\t\tif rsk[len(rsk)-1] == 0x0 {\n\t\t\ts.startRow = rsk[:len(rsk)-1]\n\t\t\treturn\n\t\t}\n", "", "reversed scan: zero-suffix shortening dropped"),
     ("m06c", "C06", "scanner.go", "\t// same row, add the partial\n\tresult.Cell = append(result.Cell, partial.Cell...)", "\t// same row, add the partial\n\tresult.Cell = append(partial.Cell, result.Cell...)",
      "coalesce prepends the new fragment"),
-    ("m07a", "C07", "rpc.go", "\t\t\t\t\tres[rpcToRes[rpc]] = lookupRes[i]\n", "\t\t\t\t\tres[i] = lookupRes[i]\n", "re-introduces the retry-batch index bug"),
+    ("m07a", "C07", "rpc.go", "\t\t\tfor i, rpc := range batch {\n\t\t\t\tif lookupRes[i].Error != nil {\n\t\t\t\t\tres[rpcToRes[rpc]] = lookupRes[i]\n", "\t\t\tfor i := range batch {\n\t\t\t\tif lookupRes[i].Error != nil {\n\t\t\t\t\tres[i] = lookupRes[i]\n", "re-introduces the retry-batch index bug"),
     ("m07b", "C07", "rpc.go", "\t\tallOK = !unretryableErrorSeen\n", "\t\tallOK = true\n", "ok flag forgets unretryable errors after a retry round"),
     ("m08a", "C08", "caches.go", "(len(regB.StopKey()) == 0 || bytes.Compare(regA.StartKey(), regB.StopKey()) < 0)",
      "(len(regB.StopKey()) == 0 || bytes.Compare(regA.StartKey(), regB.StopKey()) <= 0)", "touching neighbours treated as overlapping"),
@@ -54,10 +52,10 @@ MUTANTS = [
     ("m10b", "C10", "hrpc/mutate.go", "\t\tts = math.MaxInt64 // Java's Long.MAX_VALUE use for HBase's LATEST_TIMESTAMP", "\t\tts = math.MaxUint64", "latest sentinel written as MaxUint64"),
     ("m11a", "C11", "hrpc/call.go", "\tif len(b) < int(keyLen)+1 {", "\tif false {", "row length bounds check removed"),
     ("m11b", "C11", "region/client.go", "int64(cellsLen) > int64(rest)", "false", "cellblock length check removed"),
-    ("m12a", "C12", "rpc.go", "\t\t\t\tcase region.ServerError, region.NotServingRegionError:\n\t\t\t\t\tretryables = append(retryables, rpc)\n\t\t\t\tdefault:\n\t\t\t\t\tunretryableError = true",
-     "\t\t\t\tcase region.ServerError, region.NotServingRegionError:\n\t\t\t\t\tretryables = append(retryables, rpc)\n\t\t\t\tdefault:\n\t\t\t\t\tretryables = append(retryables, rpc)\n\t\t\t\t\tunretryableError = true",
+    ("m12a", "C12", "rpc.go", "\t\t\tcase region.ServerError, region.NotServingRegionError:\n\t\t\t\tretryables = append(retryables, rpc)\n\t\t\tdefault:\n\t\t\t\tunretryableError = true",
+     "\t\t\tcase region.ServerError, region.NotServingRegionError:\n\t\t\t\tretryables = append(retryables, rpc)\n\t\t\tdefault:\n\t\t\t\tretryables = append(retryables, rpc)\n\t\t\t\tunretryableError = true",
      "non-retryable failures are sent again"),
-    ("m12b", "C12", "region/multi.go", "\tm.calls = append(m.calls, calls...)\n", "\tm.calls = append(append([]hrpc.Call(nil), calls...), m.calls...)\n", "multi prepends newly queued calls"),
+    ("m12b", "C12", "region/multi.go", "\t\tas.pbs = append(as.pbs, a)\n", "\t\tas.pbs = append([]*pb.Action{a}, as.pbs...)\n", "multi lists a region's actions in reverse order"),
     ("m13a", "C13", "rpc.go", "\t\t\tcase <-ctx.Done():\n\t\t\t\treturn nil, ctx.Err()\n\t\t\tcase <-c.done:\n\t\t\t\treturn nil, ErrClientClosed\n\t\t\tcase <-ch:\n\t\t\t}\n\t\t}\n\n\t\tclient := reg.Client()",
      "\t\t\tcase <-c.done:\n\t\t\t\treturn nil, ErrClientClosed\n\t\t\tcase <-ch:\n\t\t\t}\n\t\t}\n\n\t\tclient := reg.Client()", "first availability wait ignores the context"),
     ("m13b", "C13", "rpc.go", "\tselect {\n\tcase <-time.After(backoff):\n\tcase <-ctx.Done():\n\t\treturn 0, ctx.Err()\n\t}", "\t<-time.After(backoff)", "back-off sleep ignores the context"),
@@ -118,19 +116,28 @@ def main():
         dt = time.time() - t0
         sigs = sorted(set(re.findall(r"VIOLATION property=\S+ replay=\S+ sig=(\S+)", c.stdout)))
         verdict = {0: "MISSED", 1: "detected", 2: "inconclusive"}.get(c.returncode, "rc=%d" % c.returncode)
+        if c.returncode == 2:
+            m = re.search(r"INCONCLUSIVE[^\n]*", c.stdout)
+            verdict += " [" + (m.group(0)[:160] if m else c.stdout[-160:].replace("\n", " ")) + "]"
         rows.append((name, prop, rel, what, tests, verdict + (" (" + ", ".join(sigs)[:120] + ")" if sigs else ""), "%.0fs" % dt))
         print(rows[-1], flush=True)
+    # results are kept per mutant, so that partial re-runs update the table in place
+    store = os.path.join(ROOT, "sens_results.json")
+    allres = json.load(open(store)) if os.path.exists(store) else {}
+    for r in rows:
+        allres[r[0]] = list(r)
+    names = [m[0] for m in MUTANTS]
+    allres = {k: v for k, v in allres.items() if k in names}
+    json.dump(allres, open(store, "w"), indent=1)
     out = ["# Sensitivity of the quick checks to hand-written mutants", "",
            "Each mutant replaces one fragment of one file of /repo through `go -overlay` (the tree is untouched).",
            "`repo tests` says whether the repository's own tests of that package still pass with the mutant;",
            "`quick check` is the verdict of `./check <property> quick` (VERIF_SEED=1) on the mutated code.", "",
            "| mutant | property | file | change | repo tests | quick check | time |", "|---|---|---|---|---|---|---|"]
-    for r in rows:
-        out.append("| " + " | ".join(r) + " |")
-    path = os.path.join(ROOT, "SENSITIVITY.md")
-    if only and os.path.exists(path):
-        out = [open(path).read().rstrip(), "", "Re-run of %s:" % " ".join(sorted(only)), ""] + out[7:]
-    open(path, "w").write("\n".join(out) + "\n")
+    for n in names:
+        if n in allres:
+            out.append("| " + " | ".join(allres[n]) + " |")
+    open(os.path.join(ROOT, "SENSITIVITY.md"), "w").write("\n".join(out) + "\n")
 
 
 if __name__ == "__main__":
